@@ -226,6 +226,9 @@ func encodeInto(w *wr, p rtcp.Packet, d Dialect) error {
 			w.u8("padding_count", uint8(pad))
 		}
 	case *rtcp.TransportLayerNack:
+		if len(v.Nacks) > 253 {
+			return ErrOutsideDomain // D: the library's documented cap on entries (its length arithmetic is 8-bit)
+		}
 		w.header(false, 1, 205)
 		w.u32("sender_ssrc", v.SenderSSRC)
 		w.u32("media_ssrc", v.MediaSSRC)
@@ -245,6 +248,9 @@ func encodeInto(w *wr, p rtcp.Packet, d Dialect) error {
 		pt := uint8(206) // RFC 4585 §6.3.2: payload-specific feedback
 		if d == Lib {
 			pt = 205
+		}
+		if len(v.SLI) > 253 {
+			return ErrOutsideDomain
 		}
 		w.header(false, 2, pt)
 		w.u32("sender_ssrc", v.SenderSSRC)
